@@ -145,8 +145,22 @@ def clone(o):
                         valid=np.array(o.valid, copy=True), vdim_mapping=dict(o.vdim_mapping), dtype=o.array.dtype)
     if isinstance(o, df.Mesh):
         m = df.Mesh(region=clone(o.region), n=[int(k) for k in o.n], bc=o.bc)
-        # exact copy: do not re-run the subregion setter (its absolute tolerance is scale dependent, D18)
-        m._subregions = {k: clone(s) for k, s in o.subregions.items()}
+        subs = {k: clone(s) for k, s in o.subregions.items()}
+        if subs:
+            try:
+                m.subregions = subs          # public setter
+                ok = all(np.array_equal(m.subregions[k].pmin, s.pmin) and np.array_equal(m.subregions[k].pmax, s.pmax)
+                         for k, s in subs.items()) and list(m.subregions) == list(subs)
+            except Exception:
+                ok = False
+            if not ok:
+                # exact copy where the setter's absolute tolerance refuses (scale dependent, D18): bypass it; when the
+                # private slot has been renamed the case says nothing about the property
+                try:
+                    m._subregions = subs
+                except AttributeError:
+                    from .core import SkipCase
+                    raise SkipCase("Mesh._subregions is not available for an exact copy") from None
         return m
     return df.Region(p1=np.array(o.pmin, copy=True), p2=np.array(o.pmax, copy=True), dims=list(o.dims),
                      units=list(o.units), tolerance_factor=o.tolerance_factor)
